@@ -90,9 +90,15 @@ def get_total_usages(req):
     sum/total of usages.
     Return 404 Not Found if the wanted microversion does not match.
     """
-    project_id = req.GET.get('project_id')
-    user_id = req.GET.get('user_id')
-    consumer_type = req.GET.get('consumer_type')
+    try:
+        project_id = req.GET.get('project_id')
+        user_id = req.GET.get('user_id')
+        consumer_type = req.GET.get('consumer_type')
+    except UnicodeDecodeError as exc:
+        # webob decodes the query string lazily; bytes that are not UTF-8
+        # are a client error (see util.validate_query_params).
+        raise webob.exc.HTTPBadRequest(
+            'Invalid query string parameters: %(exc)s' % {'exc': exc})
 
     context = req.environ['placement.context']
     context.can(
